@@ -34,6 +34,34 @@ for f in sorted(glob.glob("/verif/evidence/C*.json")):
         key = (fn["file"][len("/repo/"):], fn["lines"][0], fn["lines"][1], fn["function"].split("#")[0])
         fn_props.setdefault(key, set()).add(pid)
 
+if os.environ.get("MUTATION_UNCOVERED"):
+    # the complement: functions of the files a property is anchored in that are NOT under any contract (what do the checks say there?)
+    covered = {(k[0], k[3].split(":")[-1]) for k in fn_props}
+    fn_props = {}
+    for line in open("/verif/properties.jsonl"):
+        d = json.loads(line)
+        if props_wanted and d["id"] not in props_wanted:
+            continue
+        if not os.path.exists("/verif/evidence/%s.json" % d["id"]):
+            continue
+        for rel in d["anchors"]["files"]:
+            if not os.path.exists("/repo/" + rel):
+                continue
+            tree = ast.parse(open("/repo/" + rel).read())
+            mod = rel[len("src/"):-3].replace("/", ".")
+            mod = mod[:-9] if mod.endswith(".__init__") else mod
+
+            def walk(node, prefix):
+                for n in node.body:
+                    if isinstance(n, (ast.FunctionDef, ast.AsyncFunctionDef)):
+                        q = prefix + n.name
+                        names = {q, q + ".getter", q + ".setter"}
+                        if not any((rel, x) in covered for x in names) and not any(k[0] == rel and k[1].startswith(q + ".") for k in covered):
+                            fn_props.setdefault((rel, n.decorator_list[0].lineno if n.decorator_list else n.lineno, n.end_lineno, mod + ":" + q), set()).add(d["id"])
+                    elif isinstance(n, ast.ClassDef):
+                        walk(n, prefix + n.name + ".")
+            walk(tree, "")
+
 CMP = {ast.Lt: ast.LtE, ast.LtE: ast.Lt, ast.Gt: ast.GtE, ast.GtE: ast.Gt, ast.Eq: ast.NotEq, ast.NotEq: ast.Eq, ast.Is: ast.IsNot, ast.IsNot: ast.Is, ast.In: ast.NotIn, ast.NotIn: ast.In}
 BIN = {ast.Add: ast.Sub, ast.Sub: ast.Add, ast.Mult: ast.Div, ast.Div: ast.Mult, ast.FloorDiv: ast.Div, ast.Mod: ast.FloorDiv}
 
